@@ -312,6 +312,7 @@ func (r *c10Run) query(n *enode.Node) ([]*enode.Node, error) {
 }
 
 func runC10Engine(p c10Plan, c *stats.Case) (err error) {
+	writeWAL("C10", "engine", p) // a panic in a goroutine the engine starts kills the process: the plan is the replay
 	sink := &errSink{}
 	defer func() {
 		r := recover()
